@@ -33,6 +33,7 @@ type result struct {
 	Backoff  *backoffObs  `json:"backoff,omitempty"`
 	TLSStall *tlsStallObs `json:"tlsstall,omitempty"`
 	Hpack    *hpackObs    `json:"hpack,omitempty"`
+	Rewind   *rewindObs   `json:"rewind,omitempty"`
 }
 
 type job struct {
@@ -111,6 +112,7 @@ func allJobs() []job {
 	add("backoff", 2)
 	add("tlsstall", 1)
 	add("hpack", 1)
+	add("rewind", 1)
 	return js
 }
 
@@ -280,6 +282,13 @@ func runJob(j job, seed uint64, quick bool) (out []result) {
 			sp.Follow = 60000
 			o := runWindow(sp)
 			out = append(out, result{Win: &o})
+		}
+	case "rewind":
+		for _, at := range []int{1, 2} {
+			for _, kind := range []string{"cancel", "deadline"} {
+				o := runRewind(rewindSpec{Name: fmt.Sprintf("getbody-call-%d", at), Kind: kind, AtCall: at})
+				out = append(out, result{Rewind: &o})
+			}
 		}
 	case "hpack":
 		// the context ends before the call, or while the n-th header field is being encoded
@@ -490,6 +499,8 @@ func runC08(r *hk.Run) {
 				recordTLSStall(r, *x.TLSStall)
 			case x.Hpack != nil:
 				recordHpack(r, *x.Hpack)
+			case x.Rewind != nil:
+				recordRewind(r, *x.Rewind)
 			}
 		}
 	}
